@@ -51,6 +51,11 @@ theorem long_lived_readonly :
         || w.expr == "index s.anyOfValidators[]" || w.expr == "index s.oneOfValidators[]"
         || w.expr == "index s.allOfValidators[]") = true := by decide
 
+/-- T1: every `SpecValidator` owns the options object its schema validators read: `(*SpecValidator).Validate` writes
+    `skipSchemataResult` into it (C08.option_writes_only_in_setters), which is only private to a validation if the
+    object is allocated by the constructor -/
+theorem spec_validator_owns_its_options : specOptionsOrigin = "local new(SchemaValidatorOptions)" := by decide
+
 /-! non-vacuity: two disciplined threads, a schedule that interleaves them -/
 def thA : Prog Nat Nat := .borrow 0 (.write 0 0 5 (.read 0 0 fun v => .redeem 0 (.ret v)))
 def thB : Prog Nat Nat := .borrow 0 (.write 0 0 9 (.read 0 0 fun v => .redeem 0 (.ret (v + 1))))
